@@ -47,6 +47,7 @@ import tempfile
 import types
 
 from vlib import common
+from harness import c19_system
 
 RULE = ("retrospective and prospective runs of the real script over a fake pipeline; cases = (mode, batch size, "
         "plates, chains/chunks, publication order variant, marker-first flag, global interruption points); quick: "
@@ -55,6 +56,9 @@ RULE = ("retrospective and prospective runs of the real script over a fake pipel
         "interruption points, batch 1-4, <=9 plates, both modes; plus random directory trees for `examine`. "
         "Retrospective configurations also publish 0-2 files AFTER the marker (model evaluation: invisible to the script, "
         "absent from the model), each an interruption point. "
+        "Second stream (class.system.*): the real script over the real batchie CLIs through an in-process emulation of the "
+        "nextflow workflows (harness/nf_emulator.py): uninterrupted via main() + interruptions at chosen process starts / "
+        "publications / mkdirs, batch 2 and 3 (thorough: 20 simulations, batch 1-3, 4-7 plates, Random/Size/GaussianDBAL scorers). "
         "Non-trivial: at least one interruption that hit after the output directory existed.")
 
 M = 2147483647
@@ -1085,6 +1089,8 @@ def run(ctx, res):
         lines.append("examine 2 0 %s" % wit)
         expect.append(got)
         metas.append({"examine": wit, "B": 2})
+        # second stream: the real script over the real batchie CLIs (harness/nf_emulator.py, harness/c19_system.py)
+        c19_system.run(ctx, res, base)
     finally:
         shutil.rmtree(base, ignore_errors=True)
     if ctx.driver is not None:
@@ -1100,6 +1106,9 @@ def replay(ctx, case, res):
     mod = load_script()
     base = tempfile.mkdtemp(prefix="c19replay_", dir=workdir_base())
     try:
+        if "system" in case:
+            c19_system.replay(ctx, case, res, base)
+            return
         if "examine" in case:
             build_tree(os.path.join(base, "out"), case["examine"])
             got = real_examine(mod, os.path.join(base, "out"), case["B"])
